@@ -72,6 +72,9 @@ func IndexFromReader(r io.Reader) (c Index, err error) {
 	c.Chunks = make([]IndexChunk, len(table.Items))
 	var lastOffset uint64
 	for i, r := range table.Items {
+		if r.Offset < lastOffset {
+			return c, fmt.Errorf("chunk offset %d is smaller than the preceding offset %d", r.Offset, lastOffset)
+		}
 		c.Chunks[i].ID = r.Chunk
 		c.Chunks[i].Start = lastOffset
 		c.Chunks[i].Size = r.Offset - lastOffset
